@@ -10,6 +10,10 @@ func scenarioJobs(prop string, f func(tier string) []*Scenario) func(tier string
 		known := runner.KnownSigs(prop)
 		for _, sc := range f(tier) {
 			sc.Known = known
+			if tier == "thorough" && sc.Lates == 0 && !sc.AtomicRequests && !sc.ClockWhenIdle && len(sc.Menu) == 0 {
+				// thorough: one store read per execution may reach its coroutine late (stale read)
+				sc.Lates = 1
+			}
 			jobs = append(jobs, &ScenarioJob{Sc: sc})
 		}
 		return jobs
@@ -20,6 +24,7 @@ var engineAAssume = []string{
 	"SQLite's own atomic commit is trusted; a store is a serial executor of transactions (exact for SQLite's single worker)",
 	"gocoro's lock-step between scheduler and coroutine goroutines is trusted (exercised, not explored below coroutine granularity)",
 	"bounds: the scenario alphabets, fault/crash budgets and clock menus listed in DESIGN.md section 4",
+	"a completion reaches its coroutine in the step that executed the submission, except (thorough tier, and C01's pending setups in both tiers) at most one store read per execution, which may be delivered with the next tick",
 }
 
 func init() {
